@@ -403,10 +403,19 @@ F23Explains(T, k, c) ==
   /\ a.st[c] = "E" /\ a.kf[c] > T.S
   /\ IF a.iters # <<>> THEN F23From(T, a.iters[Len(a.iters)], a.kf[c], c)
      ELSE k > 1 /\ T.acts[k - 1].kf[c] = a.kf[c]
+(* F24 (known finding): under guarded arithmetic with guard digits (which ignores round='up') the same update truncates   *)
+(* kf * quota to 0 once the quota has collapsed (all ballots exhaust): an elected candidate's keep factor becomes 0.        *)
+F24From(T, X, kfnew, c) == ~KfRounds(T) /\ T.kind # "rational" /\ X.vote[c] > 0 /\ kfnew = 0 /\ KfUpdate(T, X.kf[c], X.quota, X.vote[c]) = 0
+F24Explains(T, k, c) ==
+  LET a == T.acts[k] IN
+  /\ a.st[c] = "E" /\ a.kf[c] = 0
+  /\ IF a.iters # <<>> THEN F24From(T, a.iters[Len(a.iters)], 0, c)
+     ELSE k > 1 /\ T.acts[k - 1].kf[c] = 0
 C08_kf_any(T) == IF T.fam # "meek" THEN {} ELSE
   {k \in 1 .. NA(T) : MeekPost(T, T.acts[k]) /\ \E c \in Cand(T) : KfBadAt(T, T.acts[k], c)}
-C08_kf(T) == {k \in C08_kf_any(T) : \E c \in Cand(T) : KfBadAt(T, T.acts[k], c) /\ ~F23Explains(T, k, c)}
-C08_kf_f23(T) == C08_kf_any(T) \ C08_kf(T)
+C08_kf(T) == {k \in C08_kf_any(T) : \E c \in Cand(T) : KfBadAt(T, T.acts[k], c) /\ ~F23Explains(T, k, c) /\ ~F24Explains(T, k, c)}
+C08_kf_f23(T) == {k \in C08_kf_any(T) \ C08_kf(T) : \E c \in Cand(T) : KfBadAt(T, T.acts[k], c) /\ F23Explains(T, k, c)}
+C08_kf_f24(T) == {k \in C08_kf_any(T) \ C08_kf(T) : \E c \in Cand(T) : KfBadAt(T, T.acts[k], c) /\ F24Explains(T, k, c)}
 C08_nonneg(T) == IF T.fam # "meek" THEN {} ELSE
   {k \in 1 .. NA(T) : LET a == T.acts[k] IN a.residual < 0 \/ \E c \in Cand(T) : a.vote[c] < 0}
 C08_omega(T) == IF T.fam # "meek" THEN {} ELSE
@@ -449,7 +458,17 @@ C09_moves(T) ==
         \/ (p.st[c] # a.st[c] /\ p.st[c] # "H" /\ ~(QpqRestartStep(T, k) /\ p.st[c] = "E" /\ a.st[c] = "H"))
         \/ (p.st[c] = "H" /\ a.st[c] \notin {"H", "E", "D"})
         \/ (p.st[c] = "E" /\ a.st[c] = "E" /\ ~p.pend[c] /\ a.pend[c])}
-C09_over(T)  == {k \in 1 .. NA(T) : Cardinality(ElectedAt(T.acts[k])) > T.seats}
+C09_over_any(T) == {k \in 1 .. NA(T) : Cardinality(ElectedAt(T.acts[k])) > T.seats}
+(* F25 (known finding): step D.4 / B.2.c of the Meek family elects every hopeful candidate that has reached the quota without *)
+(* looking at the seats left; at low precision rounding lets more candidates than seats reach it in the same iteration.       *)
+(* The matcher identifies the call site: the first over-commitment is an in-iteration `elect' of a candidate with the quota.   *)
+MinOf(S) == CHOOSE x \in S : \A y \in S : x <= y
+F25(T) == T.fam = "meek" /\ C09_over_any(T) # {} /\
+          LET a == T.acts[MinOf(C09_over_any(T))] IN
+          a.tag = "elect" /\ a.mc = "elect" /\ a.subj # 0 /\
+          (IF T.exactq THEN LT(T, a.quota, a.vote[a.subj]) ELSE a.vote[a.subj] >= a.quota)
+C09_over(T)  == IF F25(T) THEN {} ELSE C09_over_any(T)
+C09_over_f25(T) == IF F25(T) THEN C09_over_any(T) ELSE {}
 C09_under(T) == {k \in 1 .. NA(T) : LET a == T.acts[k] IN
                    Cardinality(ElectedAt(a)) + Cardinality(HopefulAt(a) \ {c \in Cand(T) : Exempt(T, c)}) < Min2(T.seats, Cardinality(Electable(T)))}
 C09_round(T) == {k \in 2 .. NA(T) : T.acts[k].round < T.acts[k - 1].round}
@@ -480,7 +499,7 @@ Tag(p, cl, S) == {<<p, cl, k>> : k \in S}
 
 FailC01(T) == Tag("C01", "outcome", C01_outcome(T)) \cup
               (IF T.outcome # "ok" \/ NA(T) = 0 THEN {} ELSE
-                 Tag("C01", "end", C01_end(T)) \cup Tag("C01", "seats", C01_seats(T)) \cup
+                 Tag("C01", "end", C01_end(T)) \cup Tag("C01", IF F25(T) THEN "KNOWN_F25" ELSE "seats", C01_seats(T)) \cup
                  Tag("C01", "decided", C01_decided(T)) \cup Tag("C01", "withdrawn", C01_withdrawn(T)) \cup
                  Tag("C01", "wdballots", C01_wdballots(T)) \cup Tag("C01", "reported", C01_reported(T)))
 FailC02(T) == Tag("C02", "nonneg", C02_nonneg(T)) \cup Tag("C02", "upper", C02_upper(T)) \cup
@@ -499,10 +518,10 @@ FailC07(T) == Tag("C07", "lowest", C07_lowest(T)) \cup Tag("C07", "batch", C07_b
               Tag("C07", "zero", C07_zero(T)) \cup Tag("C07", "highest", C07_highest(T)) \cup
               Tag("C07", "tie_named", C07_tie_named(T)) \cup Tag("C07", "ties", C07_ties(T)) \cup
               Tag("C07", "scot_prior", C07_scot_prior(T))
-FailC08(T) == Tag("C08", "sum", C08_sum(T)) \cup Tag("C08", "kf", C08_kf(T)) \cup Tag("C08", "KNOWN_F23", C08_kf_f23(T) \cup C08_iters_f23(T)) \cup
+FailC08(T) == Tag("C08", "sum", C08_sum(T)) \cup Tag("C08", "kf", C08_kf(T)) \cup Tag("C08", "KNOWN_F23", C08_kf_f23(T) \cup C08_iters_f23(T)) \cup Tag("C08", "KNOWN_F24", C08_kf_f24(T)) \cup
               Tag("C08", "nonneg", C08_nonneg(T)) \cup Tag("C08", "omega", C08_omega(T)) \cup
               Tag("C08", "order", C08_order(T)) \cup Tag("C08", "iters", C08_iters(T))
-FailC09(T) == Tag("C09", "moves", C09_moves(T)) \cup Tag("C09", "over", C09_over(T)) \cup
+FailC09(T) == Tag("C09", "moves", C09_moves(T)) \cup Tag("C09", "over", C09_over(T)) \cup Tag("C09", "KNOWN_F25", C09_over_f25(T)) \cup
               Tag("C09", "under", C09_under(T)) \cup Tag("C09", "round", C09_round(T))
 FailC18(T) == Tag("C18", "first", C18_first(T)) \cup Tag("C18", "last", C18_last(T)) \cup
               Tag("C18", "listed", C18_listed(T)) \cup Tag("C18", "first_nochange", C18_first_nochange(T)) \cup
